@@ -1369,6 +1369,8 @@ func main() {
 		fmt.Fprintf(&sw, "(* driver/options/*.go (C19): the closures *)\nDefinition option_code : list (string * list dstmt) := [\n%s].\n", strings.Join(oc, ";\n"))
 		fmt.Fprintf(&sw, "(* driver/network/acquirepriv.go Driver.determineCurrentPriv *)\nDefinition determine_current_priv_code : list dstmt :=\n  %s.\n",
 			decisionFunc("driver/network/acquirepriv.go", "Driver.determineCurrentPriv"))
+		fmt.Fprintf(&sw, "(* channel/read.go processReadBuf *)\nDefinition process_read_buf_code : list dstmt :=\n  %s.\n",
+			decisionFunc("channel/read.go", "processReadBuf"))
 		// the loops that apply an option list to an object (C19)
 		var ol []string
 		for _, lf := range [][2]string{{"driver/generic/driver.go", "NewDriver"}, {"driver/network/driver.go", "NewDriver"}, {"driver/netconf/driver.go", "NewDriver"},
